@@ -17,6 +17,7 @@ import (
 	"fmt"
 	"math/big"
 	"os"
+	"sort"
 	"strconv"
 	"strings"
 	"time"
@@ -77,6 +78,12 @@ type lkHist struct {
 	cumIn   *big.Int
 	cumOut  *big.Int
 	undelOK *big.Int // Σ amounts of successful non-voting undelegations (= recorded unbond entries)
+	// multi-validator trace format (suites lockup2 / lockupmv, Lean suite `lockupmv`): nvDelegate / nvUndelegate name their
+	// validator, the dump carries one share balance per validator and the account's shareclass unbondings
+	mv      bool
+	lastCls string // outcome class of the last executed op (for the generators' statistics)
+	vnames []string          // v0, v1, … = the validators in the order of their operator address strings
+	vaddr  map[string]string // name → operator bech32
 }
 
 func (h *lkHist) addr(name string) sdk.AccAddress {
@@ -222,6 +229,28 @@ func lkAmountOf(cs sdk.Coins, denom string) sdkmath.Int {
 }
 
 func (h *lkHist) dump(in lkInfo) string {
+	if h.mv {
+		sh := make([]string, len(h.vnames))
+		for i, n := range h.vnames {
+			sh[i] = h.bal("lock", sctypes.NonVotingShareTokenDenom(h.vaddr[n])).String()
+		}
+		scl := "-"
+		if h.lock != nil {
+			us, _ := h.c.App.ShareclassKeeper.GetUnbondingsByAddress(h.c.Ctx(), h.lock)
+			var xs []string
+			for _, u := range us {
+				xs = append(xs, fmt.Sprintf("%d:%s", u.CompletionTime.UnixNano(), u.Amount.Amount))
+			}
+			if len(xs) > 0 {
+				scl = strings.Join(xs, ",")
+			}
+		}
+		return fmt.Sprintf("lock=%s:%s sh=%s plock=%s:%s pown=%s:%s a0=%s a1=%s a2=%s DV=%s DF=%s st.plock=%s st.pown=%s ubd.plock=%s ubd.pown=%s scunb=%s scl=%s locked=%s unlocked=%s spendable=%s",
+			h.bal("lock", "urise"), h.bal("lock", "uvrise"), strings.Join(sh, ":"),
+			h.bal("plock", "urise"), h.bal("plock", "uvrise"), h.bal("pown", "urise"), h.bal("pown", "uvrise"),
+			h.bal("a0", "urise"), h.bal("a1", "urise"), h.bal("a2", "urise"),
+			in.dv, in.df, h.stake("plock"), h.stake("pown"), h.ubd("plock"), h.ubd("pown"), h.scUnb(), scl, in.locked, in.unlocked, in.spend)
+	}
 	return fmt.Sprintf("lock=%s:%s:%s plock=%s:%s pown=%s:%s a0=%s a1=%s a2=%s DV=%s DF=%s st.plock=%s st.pown=%s ubd.plock=%s ubd.pown=%s scunb=%s locked=%s unlocked=%s spendable=%s",
 		h.bal("lock", "urise"), h.bal("lock", "uvrise"), h.bal("lock", h.shareDn),
 		h.bal("plock", "urise"), h.bal("plock", "uvrise"), h.bal("pown", "urise"), h.bal("pown", "uvrise"),
@@ -409,10 +438,20 @@ func (h *lkHist) exec(op []string) {
 		// nvDelegate caller sender valOk denom amt
 		unauthorized = op[1] != h.owner || op[2] != h.owner
 		coin := sdk.Coin{Denom: h.denom(op[4]), Amount: lkInt(op[5])}
+		valKnown, valAddr := op[3] == "1", valStr(op[3])
+		if h.mv {
+			// op[3] names the validator; anything that is not a validator of the chain = a validator that does not exist
+			if a, ok := h.vaddr[op[3]]; ok {
+				h.val, h.shareDn = a, sctypes.NonVotingShareTokenDenom(a)
+				valKnown, valAddr = true, a
+			} else {
+				valKnown, valAddr = false, valStr("0")
+			}
+		}
 		// boundary: what the shareclass claim will pay, and whether the reward saver can pay it
 		claim := sdk.NewCoins()
 		claimFail := false
-		if op[3] == "1" {
+		if valKnown {
 			vb, _ := sdk.ValAddressFromBech32(h.val)
 			cl, cerr := c.App.ShareclassKeeper.GetClaimableRewards(c.Ctx(), h.lock, vb)
 			if cerr == nil {
@@ -424,7 +463,7 @@ func (h *lkHist) exec(op []string) {
 		// boundary: the share amount the shareclass keeper computes for this amount (price of the validator's share token)
 		shPre := sdkmath.ZeroInt()
 		shFail := false
-		if op[3] == "1" && coin.Amount.IsPositive() {
+		if valKnown && coin.Amount.IsPositive() {
 			if v, serr := c.App.ShareclassKeeper.CalculateShareByAmount(c.Ctx(), h.val, coin.Amount); serr == nil {
 				shPre = v
 			} else {
@@ -432,9 +471,9 @@ func (h *lkHist) exec(op []string) {
 			}
 		}
 		if op[0] == "nvDelegate" {
-			resp, err, p = execute(op[1], h.lock.String(), &nvtypes.MsgDelegate{Sender: sname(op[2]), ValidatorAddress: valStr(op[3]), Amount: coin})
+			resp, err, p = execute(op[1], h.lock.String(), &nvtypes.MsgDelegate{Sender: sname(op[2]), ValidatorAddress: valAddr, Amount: coin})
 		} else {
-			resp, err, p = execute(op[1], h.lock.String(), &nvtypes.MsgUndelegate{Sender: sname(op[2]), ValidatorAddress: valStr(op[3]), Amount: coin})
+			resp, err, p = execute(op[1], h.lock.String(), &nvtypes.MsgUndelegate{Sender: sname(op[2]), ValidatorAddress: valAddr, Amount: coin})
 		}
 		if err == nil {
 			ext = fmt.Sprintf(" ext=ok rf=%s rb=%s sh=%s", claim.AmountOf("urise"), claim.AmountOf("uvrise"), shPre)
@@ -546,6 +585,7 @@ func (h *lkHist) exec(op []string) {
 			cls = "ok"
 		}
 	}
+	h.lastCls = cls
 	e.In("%s%s", strings.Join(op, " "), ext)
 	e.Stat(op[0] + "." + cls)
 	if os.Getenv("LK_DEBUG") != "" && err != nil {
@@ -618,6 +658,18 @@ func opSender(op []string) string {
 }
 
 func (h *lkHist) denom(d string) string {
+	if h.mv {
+		// "share" = share token of v0, "share/<name>" = share token of that validator
+		if d == "share" && len(h.vnames) > 0 {
+			return sctypes.NonVotingShareTokenDenom(h.vaddr[h.vnames[0]])
+		}
+		if n, ok := strings.CutPrefix(d, "share/"); ok {
+			if a, ok := h.vaddr[n]; ok {
+				return sctypes.NonVotingShareTokenDenom(a)
+			}
+		}
+		return d
+	}
 	if d == "share" {
 		return h.shareDn
 	}
@@ -626,7 +678,13 @@ func (h *lkHist) denom(d string) string {
 
 func lkNewHist(e *Env) (*lkHist, error) { return lkNewHistVals(e, nil) }
 
-func lkNewHistVals(e *Env, valPowers []int64) (*lkHist, error) {
+func lkNewHistVals(e *Env, valPowers []int64) (*lkHist, error) { return lkNewHistX(e, valPowers, false) }
+
+// multi-validator trace format: validators are named v0, v1, … in the order of their operator address STRINGS (the key order
+// of the account's UnbondEntries map); the reset line carries the names
+func lkNewHistMV(e *Env, valPowers []int64) (*lkHist, error) { return lkNewHistX(e, valPowers, true) }
+
+func lkNewHistX(e *Env, valPowers []int64, mv bool) (*lkHist, error) {
 	cfg := sim.DefaultConfig()
 	if valPowers != nil {
 		cfg.ValPowers = valPowers
@@ -646,8 +704,24 @@ func lkNewHistVals(e *Env, valPowers []int64) (*lkHist, error) {
 	}
 	h := &lkHist{e: e, c: c, val: c.Vals[0].Oper.String(), cumIn: big.NewInt(0), cumOut: big.NewInt(0), undelOK: big.NewInt(0), ol: big.NewInt(0)}
 	h.shareDn = sctypes.NonVotingShareTokenDenom(h.val)
-	e.In("reset now=%d height=%d ut=%d a0=%s:%s a1=%s:%s a2=%s:%s", c.Time.UnixNano(), c.Height, lkUT.Nanoseconds(),
-		h.bal("a0", "urise"), h.bal("a0", "uvrise"), h.bal("a1", "urise"), h.bal("a1", "uvrise"), h.bal("a2", "urise"), h.bal("a2", "uvrise"))
+	valsField := ""
+	if mv {
+		var addrs []string
+		for _, v := range c.Vals {
+			addrs = append(addrs, v.Oper.String())
+		}
+		sort.Strings(addrs)
+		h.mv, h.vaddr, h.extraVals = true, map[string]string{}, addrs
+		for i, a := range addrs {
+			n := "v" + strconv.Itoa(i)
+			h.vnames = append(h.vnames, n)
+			h.vaddr[n] = a
+		}
+		h.val, h.shareDn = addrs[0], sctypes.NonVotingShareTokenDenom(addrs[0])
+		valsField = " vals=" + strings.Join(h.vnames, ",")
+	}
+	e.In("reset now=%d height=%d ut=%d a0=%s:%s a1=%s:%s a2=%s:%s%s", c.Time.UnixNano(), c.Height, lkUT.Nanoseconds(),
+		h.bal("a0", "urise"), h.bal("a0", "uvrise"), h.bal("a1", "urise"), h.bal("a1", "uvrise"), h.bal("a2", "urise"), h.bal("a2", "uvrise"), valsField)
 	return h, nil
 }
 
@@ -871,8 +945,9 @@ func (h *lkHist) genInit(r *Rng) []string {
 	return []string{"init", variant, "a1", owner, funds, ss, es}
 }
 
-func suiteLockup(e *Env) {
-	if e.Replay != "" {
+// replay of a recorded / hand-written history file; newHist makes the chain for a `reset` line (its tokens are passed)
+func lkReplay(e *Env, newHist func(reset []string) (*lkHist, error)) {
+	{
 		f, err := os.Open(e.Replay)
 		if err != nil {
 			e.Obs("replay-error %v", err)
@@ -895,7 +970,7 @@ func suiteLockup(e *Env) {
 				toks = append(toks, t)
 			}
 			if toks[0] == "reset" {
-				h, err = lkNewHist(e)
+				h, err = newHist(toks)
 				if err != nil {
 					e.Obs("setup-error %v", err)
 					return
@@ -922,6 +997,12 @@ func suiteLockup(e *Env) {
 				h = nil
 			}
 		}
+	}
+}
+
+func suiteLockup(e *Env) {
+	if e.Replay != "" {
+		lkReplay(e, func([]string) (*lkHist, error) { return lkNewHist(e) })
 		return
 	}
 	// the shared Rng's streams for consecutive seeds are the same stream shifted by one draw: spread the seeds
